@@ -31,7 +31,7 @@ FINDER_BOUNDS = {
     'find_rel_sets': 'every operator/modifier combination x subject sets of 1-2 (one of 3) of 8 ranges of a 9-character text, in insertion order and sorted, against every such reference range, reference set (also the empty one) - set tests vs. the appendix-A set semantics',
     'find_offset_accept': 'all cursor pairs in -(L+2)..L+2, both alignments, L = 9',
     'find_limit_slice': 'n <= 6 items, begin/end in -8..8',
-    'find_related_text': 'every operator over about 40 known selections of a 9-character text; Equals from every known and unknown single selection and from every ordered triple of 6 selections (2 of them unknown)',
+    'find_related_text': '42 ordered pairs of known selections as a two-member reference set x every operator against the set-level test; every operator over about 40 known selections of a 9-character text; Equals from every known and unknown single selection and from every ordered triple of 6 selections (2 of them unknown)',
     'find_handles_setops': 'every pair of duplicate-free sequences of length <= 4 over 5 handles',
     'find_lookup_promises': 'two histories: an annotation naming the same text, annotation and data twice; protect_text after an annotation that already carries its validation text',
     'find_strip_ids': '0-4 annotations with data, one of them removed or none, strip annotation ids / data ids / both; every id, handle and temporary id looked up',
@@ -187,9 +187,23 @@ def decide(prop, tier='quick', rlimit=None):
         # through the real code over their whole small-input space even when every obligation discharged; a failing input
         # found this way is a violation with a concrete input (it covers glue the contracts do not reach, e.g. the removal cascade)
         fnames = conf.get('finders', [])
-        if fnames and not os.environ.get('VX_NO_WITNESS'):
+        if not os.environ.get('VX_NO_WITNESS'):
             from . import witness as wit
-            for name, res in wit.run_finders(fnames).items():
+            results = wit.run_finders(fnames, regress_prop=prop)
+            # regression replays (labelled bounded): the demonstration of every repaired defect of this property that has one is
+            # run against the real code; a replay that fails means the repaired defect is back, with the replay as failing input
+            rg = results.pop('__regress__', None)
+            if rg is not None and rg['files']:
+                bounded.append(dict(harness=f"regress::{prop.lower()}_*", kind='regression replays of repaired defects (replay/fixed/*.rs compiled into the real crate)',
+                                    bound=f"{len(rg['files'])} replay files, {rg['passed'] + len(rg['failed'])} tests: " + ', '.join(rg['files']),
+                                    status='a repaired defect is back' if rg['failed'] else ('passed' if rg['completed'] else 'undetermined'), cmd=rg['cmd']))
+                for fl in rg['failed']:
+                    violations.append(dict(fn=fl['replay'], clause=None, msg='the replay of a repaired defect fails again', src=None, rendered=fl['output'], props=[prop], file=fl['replay'], line=0,
+                                           cid=f"regress/{fl['replay']}::{fl['test']}", unit='regress', kind='contract',
+                                           witness=dict(found=True, finder='regression replay', input=dict(replay=fl['replay'], test=fl['test'], output=fl['output'][-800:]), cmd=rg['cmd'])))
+                if not rg['failed'] and not rg['completed']:
+                    infra.append(f"[regress] the regression replays of {prop} did not run: {rg.get('note', '')[-300:]}")
+            for name, res in results.items():
                 b = dict(harness=name, kind='exhaustive small-input enumeration through the real code (replay/finder.rs)', bound=FINDER_BOUNDS.get(name, 'see replay/finder.rs'),
                          status='failing input found' if res['found'] else ('passed' if res['completed'] else 'undetermined'), cmd=res['cmd'])
                 bounded.append(b)
